@@ -201,7 +201,7 @@ func c20R3(c *Ctx) {
 						if cal := cl.Common().StaticCallee(); cal != nil && sendFns[FuncName(cal)] {
 							ts, _ := p.msgTypesOf(cl.Common().Args[1], 0)
 							tp.sentTypes = append(tp.sentTypes, strings.Join(ts, "|"))
-						} else if cal != nil && p.InModule(cal) && cal.Name() != "handleStateError" && p.reachesAny(cal, func(f *ssa.Function) bool { return sendFns[FuncName(f)] }) {
+						} else if cal != nil && p.InModule(cal) && !p.isStateErrorExit(cal) && p.reachesAny(cal, func(f *ssa.Function) bool { return sendFns[FuncName(f)] }) {
 							tp.sentTypes = append(tp.sentTypes, "?via "+FuncName(cal))
 						}
 					}
